@@ -174,7 +174,7 @@ func convertSchema(s string, t *VirtualTable) error {
 		if i > 0 {
 			s += ", "
 		}
-		s += c.Name
+		s += `"` + strings.ReplaceAll(c.Name, `"`, `""`) + `"`
 		if c.DefaultType != "" {
 			s += " " + c.DefaultType
 		}
